@@ -41,6 +41,10 @@ def graph_shapes() -> dict[str, dict[str, list[str]]]:
 		'vee': {'a': ['c'], 'b': ['c'], 'c': []},
 		# names that are prefixes of each other / contain the persistor's infix / live in a sub-package (eviction globs)
 		'prefix4': {'a': ['ab'], 'ab': ['a_symbols'], 'a_symbols': ['sub.a'], 'sub.a': []},
+		# sibling modules whose dotted paths are prefixes of each other and that do NOT import each other (keys of the symbol
+		# table are `<module path>#<name>`: a prefix test on them confuses `app.p` with `app.pq`), with dependants on both sides
+		'siblings': {'p': [], 'pq': [], 'r': ['pq'], 't': ['p', 'pq']},
+		'siblings2': {'t': ['pq', 'p'], 'pq': [], 'p': [], 'pqr': ['pq']},
 	}
 
 
@@ -136,14 +140,6 @@ class LibInfo:
 
 
 _LIB: LibInfo | None = None
-
-
-def store_gated() -> bool:
-	"""Which `_can_store` the tree under test has: the pinned one (no `enabled` check, F4) or the repaired one
-	(proposed/C05-store-when-disabled.diff). The model has both (`World.storeGated`); everything else is hand-modelled."""
-	import inspect
-	from rogw.tranp.semantics.reflection.persistent import SymbolDBPersistor
-	return 'enabled' in inspect.getsource(SymbolDBPersistor._can_store)
 
 
 def lib_info(ctx: Ctx) -> LibInfo:
@@ -274,7 +270,7 @@ class RealCase:
 
 	def prelude(self) -> tuple[list[str], list[str]]:
 		"""Model declaration lines for the initial state (+ the expected `ok`s)."""
-		lines = [f'init\t0\t{1 if self.enabled else 0}\t{1 if store_gated() else 0}', *self.lib.prelude()]
+		lines = [f'init\t0\t{1 if self.enabled else 0}', *self.lib.prelude()]
 		t = self.lib.first_project_mtime
 		mt: dict[str, int] = {}
 		for m in self.graph:		# written in this order by __init__: mtimes first_project_mtime+1, +2, …
